@@ -66,8 +66,19 @@ func c18Batch(n, c int, stop bool, act Action) *BatchNodeBuilder {
 
 // c18Node builds the node kind under test (forks on the kind; the action stays symbolic)
 func c18Node(act Action) Node {
-	kinds := 8
+	kinds := 10
 	switch vChoice("kind", kinds) {
+	case 8:
+		vCover("kind-batch-no-prep-function")
+		return NewBatchNode().WithPostFunc(func(ctx context.Context, s *SharedStore, items, results []Result) (Action, error) {
+			return act, nil
+		})
+	case 9:
+		vCover("kind-batch-prep-returns-nil")
+		return NewBatchNode(WithPrepFuncAny(func(ctx context.Context, s *SharedStore) (any, error) { return nil, nil })).
+			WithPostFunc(func(ctx context.Context, s *SharedStore, items, results []Result) (Action, error) {
+				return act, nil
+			})
 	case 6:
 		vCover("kind-fallback-recovered")
 		return &c18Recovering{BaseNode: NewBaseNode(WithMaxRetries(2)), act: act}
